@@ -75,8 +75,11 @@ def gen_simcase(rng, tier):
         rs = [float(int(abs(r)) % 2) for r in rs]
     if any(b["lp"][0] == "popularity" for b in bandits):
         rs = [abs(r) for r in rs]
-    return {"arms": arms, "ds": ds, "rs": rs, "cx": cx, "bandits": bandits, "test_size": test_size, "is_ordered": rng.random() < 0.5,
-            "batch_size": min(bs, n_test), "is_quick": rng.random() < 0.5, "seed": rng.randint(0, 10**6)}
+    t = {"arms": arms, "ds": ds, "rs": rs, "cx": cx, "bandits": bandits, "test_size": test_size, "is_ordered": rng.random() < 0.5,
+         "batch_size": min(bs, n_test), "is_quick": rng.random() < 0.5, "seed": rng.randint(0, 10**6)}
+    if rng.random() < 0.25:
+        t["force_chunk"] = rng.choice([1, 2, 3, 5])      # chunked drivers (model: sim_offline_chunked / sim_online_chunked)
+    return t
 
 def is_lin(t):
     return any(b["lp"][0] in gen.LIN_KINDS for b in t["bandits"])
@@ -93,6 +96,15 @@ def run_sim_impl(t):
         any_ctx = any(not REL.is_context_free(b) for b in t["bandits"])
         sim = Simulator(bandits, list(t["ds"]), list(t["rs"]), [list(r) for r in t["cx"]] if any_ctx else None,
                         test_size=t["test_size"], is_ordered=t["is_ordered"], batch_size=t["batch_size"], seed=t["seed"], is_quick=t["is_quick"])
+        if t.get("force_chunk"):
+            # the chunked branches, on small data: the chunk size computed by _run_train_test_split is lowered from outside
+            import types
+            orig = sim._run_train_test_split
+            def lowered(self):
+                r = orig()
+                self._chunk_size = max(1, min(self._chunk_size, t["force_chunk"]))
+                return r
+            sim._run_train_test_split = types.MethodType(lowered, sim)
         try:
             sim.run()
         except Exception as e:
@@ -169,18 +181,23 @@ def simcase_text(cid, t, split, tape):
     bs = t["batch_size"]
     batches = [ti] if bs == 0 else [ti[s:s + bs] for s in range(0, len(ti), bs)]
     lines.append("%s %d" % ("offline" if bs == 0 else "online", len(batches)))
+    chunk = t.get("force_chunk") or max(1, len(ti))
+    lines.append("CHUNK %d" % chunk)
     hist = list(tr)
     for idx in batches:
         lines.append(" ".join(batch_tokens(*rows(idx))))
-        for b in t["bandits"]:
-            orc = {k: list(v) for k, v in mwh.EMPTY_ORC.items()}
-            orc["sizes"] = [len(idx)]
-            if b["np"] is not None and b["np"][0] == "knearest":
-                orc["knn"] = knn_oracle([cx[i] for i in hist], [cx[i] for i in idx], b["np"][1], b["np"][2])
-            lines.append(" ".join(mwh.orc_tokens(orc)))      # predict
-            o2 = {k: list(v) for k, v in mwh.EMPTY_ORC.items()}; o2["sizes"] = [len(idx)]
-            lines.append(" ".join(mwh.orc_tokens(o2)))       # predict_expectations
-            lines.append(" ".join(mwh.orc_tokens(None)))     # partial_fit
+        chunks = [idx[s:s + chunk] for s in range(0, len(idx), chunk)]
+        lines.append(str(len(chunks)))
+        for ch in chunks:
+            for b in t["bandits"]:
+                orc = {k: list(v) for k, v in mwh.EMPTY_ORC.items()}
+                orc["sizes"] = [len(ch)]
+                if b["np"] is not None and b["np"][0] == "knearest":
+                    orc["knn"] = knn_oracle([cx[i] for i in hist], [cx[i] for i in ch], b["np"][1], b["np"][2])
+                lines.append(" ".join(mwh.orc_tokens(orc)))      # predict
+                o2 = {k: list(v) for k, v in mwh.EMPTY_ORC.items()}; o2["sizes"] = [len(ch)]
+                lines.append(" ".join(mwh.orc_tokens(o2)))       # predict_expectations
+                lines.append(" ".join(mwh.orc_tokens(None)))     # partial_fit
         hist += idx
     flat = [(key, e) for key, lst in tape.entries.items() for e in lst]
     lines.append("TAPE %d" % len(flat))
